@@ -1080,6 +1080,23 @@ func runGlue(c *cCase) []Step {
 	}
 	if g.RepoB {
 		tags = append(tags, "glue-two-repositories")
+		// the versions of base, lib, app per revision of repository 0: with two repositories an index revision may be
+		// in the cache without the packages of its image (an online build over both installs repository B's app)
+		var vs []string
+		for rev := 0; rev < c.NRev; rev++ {
+			var t []string
+			for j := 0; j < cacheNPkg; j++ {
+				ver := 0
+				for r := 1; r <= rev; r++ {
+					if c.Bumps[r][j] {
+						ver = r
+					}
+				}
+				t = append(t, fmt.Sprint(ver))
+			}
+			vs = append(vs, strings.Join(t, "."))
+		}
+		fields = append(fields, "vers="+strings.Join(vs, "/"))
 	}
 	line := strings.Join(fields, "\t")
 	desc := fmt.Sprintf("keys=%s history=%s → %s", strings.Join(ks, ","), hist, strings.Join(outs, ","))
